@@ -5,6 +5,8 @@ CONSTANTS
   Mode = "grammar"
   MaxEvents = 7
   MaxDocs = 2
+  MaxNest = 9
+  EmptyColls = FALSE
   Canons = {FALSE}
   Bests = {2}
   Widths = {80}
